@@ -3,6 +3,7 @@ package checks
 import (
 	"fmt"
 	"regexp"
+	"strconv"
 	"strings"
 
 	"verif/gen"
@@ -127,7 +128,33 @@ func c05Custom(ctx *RunCtx) error {
 	if err := emptyExprLint(ctx); err != nil {
 		return err
 	}
-	return literalInvariance(ctx)
+	if err := literalInvariance(ctx); err != nil {
+		return err
+	}
+	// "the nesting of operators, calls and blocks obtained by reading the text with Coq's precedence
+	// is the nesting of the Go source": the rules of the corpus in which parenthesisation decides the
+	// meaning (operator precedence, nested calls, bare blocks, bindings in non-tail position, if-trees)
+	// go through the translation validation of C01 here as well — a misplaced or missing parenthesis
+	// changes the result or the scope on some input, which the solver finds
+	// cases pinned as known findings of C01 (operand widths, loop-variable scope) are reported there
+	pinned := map[string]bool{}
+	for _, k := range LoadKnown() {
+		if k.Status == "known" && k.Property == "C01" {
+			pinned[strings.TrimPrefix(k.ID, "C01:")] = true
+		}
+	}
+	nesting := func(id string) bool {
+		if pinned[id] {
+			return false
+		}
+		for _, pre := range []string{"expr/", "scope/", "ctl/if", "stmt/", "func/closure", "strlit/"} {
+			if strings.HasPrefix(id, pre) {
+				return true
+			}
+		}
+		return false
+	}
+	return tvRunOpts(ctx, gen.Subset(ctx.TierN()), tvOpts{Mode: "subset", Validate: true, Only: nesting})
 }
 
 // forbiddenAdjacent: token pairs that cannot occur in a well-formed Coq term whatever notations are in
@@ -268,6 +295,8 @@ func literalInvariance(ctx *RunCtx) error {
 	var pkgs []*tv.Package
 	pkgs = append(pkgs, gen.Subset(0)...)
 	pkgs = append(pkgs, gen.Random(1, 160+240*ctx.TierN(), 3)...)
+	// hostile contents (printf verbs, Coq delimiters, notation tokens) × every printing context
+	pkgs = append(pkgs, gen.StringContexts()...)
 	n := 0
 	for _, p := range pkgs {
 		if !strings.Contains(p.Files["gen.go"], "\"") {
@@ -289,6 +318,24 @@ func literalInvariance(ctx *RunCtx) error {
 			// a literal that is itself rejected (quotes, newlines) changes the error list: compare only
 			// when both runs translate the same declarations
 			if a.Exit == b.Exit {
+				continue
+			}
+		}
+		// content preservation (hostile-content packages): with the masked letters put back, the two
+		// outputs are the same text — the content arrives unchanged, byte for byte, in every context
+		if content, ok := gen.StringContextContent(p.Name); ok && content != "" && a.V != "" && b.V != "" {
+			mask := strings.Repeat("q", len(strconv.Quote(content))-2)
+			want := strings.ReplaceAll(b.V, `"`+mask+`"`, `"`+content+`"`)
+			if want != a.V {
+				la, lw := strings.Split(a.V, "\n"), strings.Split(want, "\n")
+				detail := fmt.Sprintf("%d lines vs %d", len(la), len(lw))
+				for i := 0; i < len(la) && i < len(lw); i++ {
+					if la[i] != lw[i] {
+						detail = fmt.Sprintf("line %d: emitted %q, expected %q", i+1, strings.TrimSpace(la[i]), strings.TrimSpace(lw[i]))
+						break
+					}
+				}
+				ctx.addTVViolation(p, nil, "strlit/content-preserved-byte-for-byte", fmt.Sprintf("literal %q: %s", content, detail), a, nil)
 				continue
 			}
 		}
